@@ -3,7 +3,7 @@ From Coq Require Import List Arith Lia Bool PeanoNat String.
 Import ListNotations.
 Notation length := List.length.
 From SP Require Import Skel Gen Expected NetA Inv Pres Dead Top Ghost GhostPres Term Early NetTop.
-From SP Require Result TaskFS TmpInv Slots NetSlots FanIn.
+From SP Require Result TaskFS TmpInv Slots NetSlots FanIn StreamReg.
 
 (* T1: runProcs starts every selected process except the driver, runs the driver in the caller and waits for all;
    Process.Run closes its out-ports on return; the select loop and the port protocol are the modelled ones *)
@@ -186,6 +186,32 @@ Theorem C05_fanin_nonvacuous :
   FanIn.wf_in 3 [([0; 1; 2], 1); ([1; 0; 2], 1)] [2; 0; 1] /\ length [([0; 1; 2], 1); ([1; 0; 2], 1)] <= 2.
 Proof. exact FanIn.fanin_wf_example. Qed.
 
+(* ---- a streamed and a regular output of one task into one consumer (finding D23, recorded) ----
+   StreamReg: Process.Run sends a task's streamed out-IPs before the task executes and its regular ones after it has
+   finished; the consumer forms its task when every in-port has delivered; a command writing a FIFO ends only after a reader
+   opened it.  With the stream alone every state short of the end can move and every run is at most 7 steps long ... *)
+Theorem C05_stream_only_progress : forall l s,
+  StreamReg.run false StreamReg.init l = Some s -> StreamReg.final s = false -> StreamReg.stuck false s = false.
+Proof. exact StreamReg.stream_only_progress. Qed.
+
+Theorem C05_stream_reg_step_decreases : forall both s a s',
+  StreamReg.step both s a = Some s' -> StreamReg.measure s' < StreamReg.measure s.
+Proof. exact StreamReg.step_decreases. Qed.
+
+Theorem C05_stream_only_nonvacuous :
+  exists s, StreamReg.run false StreamReg.init
+              [StreamReg.SendStream; StreamReg.StartCmd; StreamReg.Form; StreamReg.WriteAll; StreamReg.ReadAll;
+               StreamReg.Finish; StreamReg.SendReg] = Some s /\ StreamReg.final s = true.
+Proof. exact StreamReg.stream_only_example. Qed.
+
+(* ... with the regular output read by the same consumer the property fails for this wiring: no run ever completes (the
+   consumer never forms its task, the producer's command never gets past open()), and after two steps nothing can move *)
+Theorem C05_stream_and_regular_refuted :
+  (forall l s, StreamReg.run true StreamReg.init l = Some s -> StreamReg.final s = false) /\
+  (exists s, StreamReg.run true StreamReg.init [StreamReg.SendStream; StreamReg.StartCmd] = Some s
+             /\ StreamReg.stuck true s = true /\ StreamReg.final s = false).
+Proof. split; [exact StreamReg.both_refuted | exact StreamReg.both_is_stuck]. Qed.
+
 Print Assumptions C05_code_conforms.
 Print Assumptions C05_no_deadlock.
 Print Assumptions C05_terminates.
@@ -204,3 +230,7 @@ Print Assumptions C05_fanin_terminates.
 Print Assumptions C05_fanin_maximal.
 Print Assumptions C05_fanin_small_buffer_refuted.
 Print Assumptions C05_fanin_nonvacuous.
+Print Assumptions C05_stream_only_progress.
+Print Assumptions C05_stream_reg_step_decreases.
+Print Assumptions C05_stream_only_nonvacuous.
+Print Assumptions C05_stream_and_regular_refuted.
